@@ -25,6 +25,9 @@ pub(super) trait SolveDatabase<I: Interner>: Sized {
 
     fn max_size(&self) -> usize;
 
+    /// Called when `should_continue` returned false and solving is cut short.
+    fn note_interrupted(&mut self);
+
     fn interner(&self) -> I;
 
     fn db(&self) -> &dyn RustIrDatabase<I>;
@@ -44,6 +47,7 @@ pub(super) trait SolveIteration<I: Interner>: SolveDatabase<I> {
         should_continue: impl std::ops::Fn() -> bool + Clone,
     ) -> Fallible<Solution<I>> {
         if !should_continue() {
+            self.note_interrupted();
             return Ok(Solution::Ambig(Guidance::Unknown));
         }
 
